@@ -293,6 +293,18 @@ Section C13_DFT.
     exact (@np_swap_negates N1 N2 up (ccQ ref im) (ccQ im ref) ups ups' p q H1 H2 Hu (ccQ_reflected ref im) Hw).
   Qed.
 
+  Theorem registration_swap_torch ref im up ups ups' p q :
+    2 <= N1 -> 2 <= N2 -> up <= 2 ->
+    uniq_max N1 N2 (ccQ ref im) p q ->
+    exists a b a' b',
+      torch_shift N1 N2 up (ccQ ref im) ups = Some (a, b) /\
+      torch_shift N1 N2 up (ccQ im ref) ups' = Some (a', b') /\
+      neg_mod N1 a a' /\ neg_mod N2 b b'.
+  Proof.
+    intros H1 H2 Hup Hu.
+    exact (@torch_swap_negates N1 N2 up (ccQ ref im) (ccQ im ref) ups ups' p q H1 H2 Hup Hu (ccQ_reflected ref im)).
+  Qed.
+
   (* ---------------------------------------------------------------- the upsampling kernels *)
   Variable E : Q -> R.
   Hypothesis E_ext : forall p q : Q, (p == q)%Q -> E p = E q.
